@@ -102,6 +102,18 @@ def run(prop, tier):
               what='trace %d line %d fails %s' % (x['tid'], x['k'], x['clause']),
               replay={'pipeline': 'kernel', 'ops': x['scenario'].get('ops'), 'kind': x['scenario'].get('kind'),
                       'seed': x['scenario'].get('seed'), 'line': x['k'], 'error': x['scenario'].get('error')})
+    floor_lines = 0
+    if prop == 'C01':
+        # "every model assembled from the library's devices": the dispatch clauses are also evaluated on
+        # every step of the factory-floor traces (FloorObs.tla, clauses C01.Floor*)
+        from . import p_floor
+        fres = p_floor.result(tier)
+        floor_lines = fres['lines']
+        for x in fres['violations']:
+            if x['clause'].startswith('C01.'):
+                v.add(key='C01:%s' % x['clause'].split('.', 1)[1], clause=x['clause'],
+                      what='floor configuration %d (%s) line %d fails %s' % (x['cid'], x['family'], x['k'], x['clause']),
+                      replay={'pipeline': 'floor', 'cfg': x['cfg'], 'seed': x['seed'], 'line': x['k']})
     lines, rc = v.finish()
     mine = {'C01': ('step', 'sched', 'run_begin', 'run_end'), 'C07': ('pause', 'unpause', 'cancel')}[prop]
     cov = {
@@ -111,6 +123,7 @@ def run(prop, tier):
         'exhaustive': True,
         'design': res['design'],
         'impl_trace_lines': res['lines'],
+        'floor_trace_lines_checked_for_dispatch_order': floor_lines,
         'impl_lines_of_this_property': sum(res['exercised'].get(o, 0) for o in mine),
         'exercised': res['exercised'],
         'spec_behaviours_replayed': res['traces'] - TIERS[tier]['rnd_num'],
